@@ -23,6 +23,7 @@ import (
 	"github.com/refraction-networking/conjure/pkg/transports/wrapping/prefix"
 	pb "github.com/refraction-networking/conjure/proto"
 	"google.golang.org/protobuf/proto"
+	"google.golang.org/protobuf/types/known/anypb"
 
 	"verif/sim"
 	"verif/sim/hook"
@@ -50,6 +51,9 @@ type c02Client struct {
 	// ov: phantom addresses assigned by the registrar (RegistrationResponse override); nil = the
 	// address derived from the seed. The registration exists on THIS address only.
 	ov [2]net.IP
+	// dupPrefix: the prefix id named by a later duplicate of an already tracked prefix registration
+	// (-1 = none). The registered prefix stays the one of the first message.
+	dupPrefix int32
 }
 
 // ph is the phantom address the client's registration of that family is for.
@@ -88,7 +92,7 @@ func TestVerifC02(t *testing.T) {
 		Runs:     map[string]int{"quick": 20000, "thorough": 600000},
 		Real:     []string{"cmd/application handleNewTCPConn", "min / prefix / obfs4 station transports (WrapConnection, identifiers, tag reveal, obfs4 mark) and real client transports for genuine flights", "RegistrationManager: ingest pipeline, GetRegistrations / Valid flag, MarkActive, RemoveOldRegistrations", "Proxy dial (seam)"},
 		Stub:     []string{"TCP (simnet)", "phantom liveness table", "detector recorder", "covert hosts (echo actors)", "ZMQ", "accept-loop glue"},
-		Rule: "random histories of 4-22 operations over 2-5 clients (min / prefix x id / obfs4; dual-stack) whose phantoms collide on 2+2 addresses: register, duplicate, flip phantom liveness, advance (1 s .. 6 h 1 min), sweep, connect. A connect is: genuine flight, genuine flight aimed at another phantom, flight for another transport / another prefix id / obfs4 handshake with the same secret, flight for a rejected or swept registration, genuine flight with 1-3 bits flipped in the tag, truncated flight, random bytes; under random segmentation. " +
+		Rule: "random histories of 4-22 operations over 2-5 clients (min / prefix x id / obfs4; dual-stack) whose phantoms collide on 2+2 addresses: register, duplicate, flip phantom liveness, advance (1 s .. 6 h 1 min), sweep, connect. A connect is: genuine flight, genuine flight aimed at another phantom, flight for another transport / another prefix id / obfs4 handshake with the same secret, flight for a rejected or swept registration, genuine flight with 1-3 bits flipped in the tag, truncated flight, random bytes; under random segmentation; a duplicate of a tracked prefix registration that names another prefix id (the registered prefix stays), and a genuine flight that arrives on a connection accepted while the registration was valid, after the registration expired and was swept. " +
 			"Oracle: reference registry (state, registration time, used) + dial attribution by per-registration covert address. non-trivial = a must-reject near miss was evaluated against a non-empty registry; distinct = (history shape, connect kinds, schedule) signatures",
 		Assume: []string{"harness test files built with //go:debug asynctimerchan=0", "expired-but-not-yet-swept registrations and re-registrations of rejected registrations are don't-cares", "min has no replay protection by design: a replayed genuine flight on its own phantom is a legal match"},
 	})
@@ -148,7 +152,7 @@ func c02Scenario(r *sim.Run) {
 				r.Fail("harness/c02-client", "%v", err)
 				return
 			}
-			x := &c02Client{c: c, regs: [2]*c02Reg{{}, {}}}
+			x := &c02Client{c: c, regs: [2]*c02Reg{{}, {}}, dupPrefix: -1}
 			if tp.Prob("registrar-override", 1, 4) {
 				// the registrar moved the client to the other address of each (two-address) subnet
 				for fam, pair := range [2][2]string{{"192.0.2.4", "192.0.2.5"}, {"2001:db8:1::4", "2001:db8:1::5"}} {
@@ -179,7 +183,7 @@ func c02Scenario(r *sim.Run) {
 		}
 
 		// one connection; returns the covert address dialled for it ("" = none) and whether the handler finished
-		connect := func(phantom net.IP, send func(h *simnet.Conn), label string) (string, bool) {
+		connect := func(phantom net.IP, send func(h *simnet.Conn), label string, mid func()) (string, bool) {
 			id := nconn
 			nconn++
 			cli := simnet.TCP(fmt.Sprintf("198.51.100.%d", 100+id%100), 41000+id)
@@ -189,6 +193,11 @@ func c02Scenario(r *sim.Run) {
 			nd := len(w.dials)
 			conn := w.open(phantom, cli)
 			r.Logf("%s: %s", conn.name, label)
+			if mid != nil {
+				// the handler reaches its first read, then things happen before the flight arrives
+				w.settle()
+				mid()
+			}
 			send(conn.H)
 			// wait until the station is done with it (at most the classification deadline)
 			for i := 0; i < 13 && !conn.returned; i++ {
@@ -278,6 +287,22 @@ func c02Scenario(r *sim.Run) {
 			return sendBytes(append(fl, []byte("hello covert")...)), nil
 		}
 
+		// sweep runs the station's clean-up and follows it in the model
+		sweep := func() {
+			w.rm.RemoveOldRegistrations()
+			for _, x := range cl {
+				for _, g := range x.regs {
+					if g.state != c02None && nearThreshold(g) {
+						g.state = c02Unknown
+					} else if g.state != c02None && g.state != c02Unknown && expired(g) {
+						g.state = c02None
+					} else if g.state == c02Unknown && expired(g) && !nearThreshold(g) {
+						g.state = c02None
+					}
+				}
+			}
+		}
+
 		for op := 0; op < nops && !r.Failed(); op++ {
 			switch k := tp.Choose("op", 12); {
 			case k < 3: // register / duplicate
@@ -286,6 +311,35 @@ func c02Scenario(r *sim.Run) {
 				w.mu.Lock()
 				live4 := w.live[ph4]
 				w.mu.Unlock()
+				if pp, ok := x.c.pparams.(*pb.PrefixTransportParams); ok && x.c.tt == pb.TransportType_Prefix &&
+					x.regs[0].state == c02Valid && x.regs[1].state == c02Valid && tp.Prob("dup-other-prefix", 1, 3) {
+					// a duplicate of a tracked, validated registration that names ANOTHER prefix: the
+					// registration stays what it was (a duplicate is only counted), so flights of that
+					// other prefix are still flights "for a different prefix than the one registered"
+					other := (pp.GetPrefixId() + 1 + int32(tp.Choose("dup-prefix", 9))) % 10
+					np := proto.Clone(pp).(*pb.PrefixTransportParams)
+					np.PrefixId = proto.Int32(other)
+					msg := x.c.regMessage(func(wr *pb.C2SWrapper) {
+						if a, err := anypb.New(np); err == nil {
+							wr.RegistrationPayload.TransportParams = a
+						}
+						if x.ov[0] != nil || x.ov[1] != nil {
+							rr := &pb.RegistrationResponse{}
+							if x.ov[0] != nil {
+								rr.Ipv4Addr = proto.Uint32(binary.BigEndian.Uint32(x.ov[0].To4()))
+							}
+							if x.ov[1] != nil {
+								rr.Ipv6Addr = x.ov[1]
+							}
+							wr.RegistrationResponse = rr
+						}
+					})
+					w.register(msg)
+					x.dupPrefix = other
+					r.Probe("duplicate_naming_another_prefix")
+					r.Logf("op%d duplicate of client %d's registration naming prefix id %d (registered: %d)", op, x.c.id, other, pp.GetPrefixId())
+					break
+				}
 				w.register(x.regMsg())
 				for fam := 0; fam < 2; fam++ {
 					g := x.regs[fam]
@@ -321,18 +375,7 @@ func c02Scenario(r *sim.Run) {
 				r.Logf("op%d advance %v", op, d)
 				r.Cover("adv", d.String())
 			case k == 6: // sweep
-				w.rm.RemoveOldRegistrations()
-				for _, x := range cl {
-					for _, g := range x.regs {
-						if g.state != c02None && nearThreshold(g) {
-							g.state = c02Unknown
-						} else if g.state != c02None && g.state != c02Unknown && expired(g) {
-							g.state = c02None
-						} else if g.state == c02Unknown && expired(g) && !nearThreshold(g) {
-							g.state = c02None
-						}
-					}
-				}
+				sweep()
 				r.Logf("op%d sweep", op)
 				r.Cover("sweep")
 			default: // connect
@@ -393,6 +436,10 @@ func c02Scenario(r *sim.Run) {
 								mine = cp.PrefixID
 							}
 							other := (mine + 1 + int32(tp.Choose("fprefix", 9))) % 10
+							if x.dupPrefix >= 0 && x.dupPrefix != mine && tp.Bool("prefix-of-duplicate") {
+								other = x.dupPrefix
+								r.Probe("flight_for_prefix_named_by_duplicate")
+							}
 							label = fmt.Sprintf("prefix flight with prefix id %d for a registration made with prefix id %d", other, mine)
 							send, err = foreignFlight(x, pb.TransportType_Prefix, &prefix.ClientParams{PrefixID: other})
 						}
@@ -462,11 +509,32 @@ func c02Scenario(r *sim.Run) {
 						verdict = "dontcare"
 					}
 				}
+				var mid func()
+				if verdict == "match" && x.c.tt != pb.TransportType_Obfs4 && tp.Prob("flight-after-expiry", 1, 6) {
+					// The connection is accepted while the registration is valid; the registration expires
+					// and is swept while the handler waits for the first bytes; then the genuine flight
+					// arrives: it is aimed at a registration that has expired by the time it is matched.
+					life := 10 * time.Minute
+					if g.used {
+						life = 6 * time.Hour
+					}
+					if rem := life - time.Since(g.at); rem > time.Second {
+						time.Sleep(rem - time.Second)
+					}
+					mid = func() {
+						time.Sleep(2 * time.Second)
+						sweep()
+					}
+					verdict = "reject"
+					label += ", sent 2 s after the connection was accepted; meanwhile the registration expired and was swept"
+					r.Probe("flight_after_registration_expired_on_open_connection")
+					r.Nontrivial()
+				}
 				if mustReject && registryNonEmpty() {
 					r.Nontrivial()
 				}
-				r.Cover("conn", fmt.Sprint(kind, x.c.tt, fam, g.state, verdict))
-				addr, done := connect(phantom, send, fmt.Sprintf("op%d client %d (%s) v%d: %s [model: state=%d expect=%s]", op, x.c.id, stTransportName(x.c.tt), 4+2*fam, label, g.state, verdict))
+				r.Cover("conn", fmt.Sprint(kind, x.c.tt, fam, g.state, verdict, mid != nil))
+				addr, done := connect(phantom, send, fmt.Sprintf("op%d client %d (%s) v%d: %s [model: state=%d expect=%s]", op, x.c.id, stTransportName(x.c.tt), 4+2*fam, label, g.state, verdict), mid)
 				if !done {
 					r.Fail("C02/handler-stuck", "%s: the handler did not return", label)
 					return
